@@ -154,19 +154,21 @@ def run(ctx: Ctx):
     check_einsums_in_function(ctx, pi, typer)
     check_elementwise_in_function(ctx, pi, typer)
     SP = Snips(pi)
-    sv, pe = SP.first("v = np.linalg.solve(E_A, s_rf)")
+    sv, pe = SP.first("v = np.linalg.solve(E_A, E_b)")
     if sv is not None:
-        pA = alg.normalise(pe["A"])
-        mpn = None
+        chain = {k: d for k, d in SP.defs.items()}
+        pA = alg.normalise(pe["A"], lambda nme: chain.get(nme) if isinstance(chain.get(nme), ast.BinOp) else None)
+        # atoms of the system matrix: np.eye(...) and gamma * <chain>; the chain is an einsum, named or in place
+        mp_atom = None
         for m_, c in pA.items():
             d = dict(m_)
             if c == -1 and d.get("self.mdp.discount_rate") == 1 and len(d) == 2:
-                mpn = next(k for k in d if k != "self.mdp.discount_rate")
-        ok = len(pA) == 2 and mpn is not None and any(c == 1 and len(m_) == 1 and m_[0][0].startswith("np.eye(") for m_, c in pA.items())
+                mp_atom = next(k for k in d if k != "self.mdp.discount_rate")
+        ok = len(pA) == 2 and mp_atom is not None and any(c == 1 and len(m_) == 1 and m_[0][0].startswith("np.eye(") for m_, c in pA.items())
         ctx.check(ok, "BEL-2", pi, sv, "evaluation solves (eye - gamma * P_pi) v = r_pi", alg.show(pA), f"system matrix normalises to `{alg.show(pA)}`")
-        ok = mpn is not None and SP.has(f"{mpn} = np.einsum('sa,san->sn', pi, {ptf})")
+        ok = SP.solve([f"mp = np.einsum('sa,san->sn', pi, {ptf})", "v = np.linalg.solve(np.eye(ANY) - self.mdp.discount_rate * mp, ANY)"], {"v": pe["v"]}) is not None
         ctx.check(ok, "BEL-2", pi, sv, "P_pi = sum_a pi(a|s) T(s'|s,a)", "", "policy chain changed")
-        ok = SP.has(f"{pe['s_rf']} = np.einsum('sa,san,san->s', pi, {ptf}, {prf})") or SP.has(f"{pe['s_rf']} = np.einsum('sa,san,san->s', pi, {prf}, {ptf})")
+        ok = any(SP.solve([f"s_rf = np.einsum('sa,san,san->s', pi, {x}, {y})", "v = np.linalg.solve(ANY, s_rf)"], {"v": pe["v"]}) is not None for x, y in ((ptf, prf), (prf, ptf)))
         ctx.check(ok, "BEL-2", pi, sv, "right-hand side is the policy's expected reward", "", "right-hand side changed")
     else:
         ctx.violation("BEL-2", pi, pi.node, "policy evaluation by linear solve", "no linear solve")
@@ -216,8 +218,10 @@ def run(ctx: Ctx):
         de = {**de, **{k: le[k] for k in ("si", "node")}}
     z = SD.find(f"zip({cols}, q[si, :])", de) if cols else []
     ctx.check(bool(z), "LAY-1", dp, z[0][0] if z else dp.node, "action values are paired with the action list that laid out the columns", "", "column order of the read-back differs from the layout")
-    o1 = SD.solve(["action_vals = {a: v0 for a, v0 in zip(ANY, ANY)}", "optimal_action = max(node.action_order, key=lambda a2: action_vals[a2])", "node.optimal_action = optimal_action"], {k: de[k] for k in ("node",) if k in de})
-    ctx.check(o1 is not None, "BEL-4", dp, o1[1][1] if o1 else dp.node, "optimal action is chosen among the node's own action order", "", "optimal action is not taken from node.action_order by maximising the paired action values")
+    o1 = SD.solve(["action_vals = {a: v0 for a, v0 in zip(ANY, ANY)}", "optimal_action = max(node.action_order, key=lambda a2: action_vals[a2])"], {k: de[k] for k in ("node",) if k in de})
+    # the maximiser is stored as the node's optimal action, directly or through a temporary
+    ok = o1 is not None and (str(o1[0]["optimal_action"]) == f"{o1[0]['node']}.optimal_action" or SD.has("node.optimal_action = optimal_action", o1[0]))
+    ctx.check(ok, "BEL-4", dp, o1[1][1] if o1 else dp.node, "optimal action is chosen among the node's own action order", "", "optimal action is not taken from node.action_order by maximising the paired action values")
     ctx.check(SD.has("node.value = v[si]", de), "LAY-1", dp, dp.node, "node value = solved value of its own row", "", "node value is not v[si]")
     # ---- node initialisation
     ini = E.methods["_initialize_node"]
